@@ -220,9 +220,10 @@ def judge(col: common.Collector, ll: codecrun.LoadedLayer, model: Dict[str, Any]
             # services whose request prefix contradicts the triggering request are no candidates;
             # if the request merely fails to decode completely (too short, invalid value) the
             # statement does not say whether the service is still a candidate -> MAY at most
+            # (a "request" argument that is no request of the service at all - e.g. one of its
+            # responses - still leads odxtools to the service through the shared prefix tree;
+            # the statement defines the reported set by what matches M, so that is MAY as well)
             k0, _ = codecrun.ref_decode(ll.ref, rq_model, request)
-            if k0 == "mismatch-leading":
-                continue
             if k0 != "ok":
                 only_may = True
         # what is known about the request when a response is matched: the triggering request if
